@@ -254,6 +254,8 @@ class TracedCtl(ctl_sched.Ctl):
         self.trace = []          # summaries after each choice
         self.choice_log = []     # 'p' | 'c<spec>'
         self.vids = {}
+        self.opt_counts = []
+        self.taken = []
 
     def remember(self, job):
         """Spec id of a real Job = its position in the job tree (parent's spec, index among the parent's
@@ -294,12 +296,17 @@ class TracedCtl(ctl_sched.Ctl):
             return None
         if self.decisions is not None:
             d = self.decisions.pop(0) if self.decisions else 0
-            return opts[d % len(opts)]
-        if self.drng is not None:
+            k = d % len(opts)
+        elif self.drng is not None:
             if queue_nonempty and (not self.inflight or self.drng.random() > self.p_complete):
-                return "p"
-            return self.drng.randrange(len(self.inflight))
-        return opts[0]
+                k = 0
+            else:
+                k = (1 if queue_nonempty else 0) + self.drng.randrange(len(self.inflight))
+        else:
+            k = 0
+        self.opt_counts.append(len(opts))
+        self.taken.append(k)
+        return opts[k]
 
 
 class TracedQueue(ctl_sched.CtlQueue):
@@ -398,3 +405,41 @@ def compare_with_model(ctx, p: Program, ctl: TracedCtl, dryrun=False, pre=None, 
 
 def has_expr(v):
     return any(isinstance(x, Expression) for x in iter_nested_value(v))
+
+
+def compare_batch(ctx, items, driver="Sched"):
+    """items: list of (program, ctl, dryrun, pre).  One driver process for all of them.
+    Returns list of None | (index, model_line, real_line, choices)."""
+    reqs = [p.request(ctl.choice_log, dryrun=dr, pre=pre) for (p, ctl, dr, pre) in items]
+    replies = ctx.model(driver, reqs) if reqs else []
+    out = []
+    for (p, ctl, dr, pre), reply in zip(items, replies):
+        mt = [x.strip() for x in reply.split("|")] if reply.strip() else []
+        rt = ctl.trace
+        d = None
+        for i in range(max(len(mt), len(rt))):
+            a = mt[i] if i < len(mt) else "<none>"
+            b = rt[i] if i < len(rt) else "<none>"
+            if a != b:
+                d = (i, a, b, ctl.choice_log[: i + 1])
+                break
+        out.append(d)
+    return out
+
+
+def enumerate_schedules(run_fn, max_runs):
+    """Depth-first enumeration of all decision sequences.  run_fn(decisions) must return the ctl of the run;
+    ctl.opt_counts[i] = number of enabled options at decision point i, ctl.taken[i] = option taken."""
+    prefix = []
+    n = 0
+    while n < max_runs:
+        ctl = run_fn(list(prefix))
+        n += 1
+        yield ctl
+        taken, counts = ctl.taken, ctl.opt_counts
+        i = len(taken) - 1
+        while i >= 0 and taken[i] + 1 >= counts[i]:
+            i -= 1
+        if i < 0:
+            return
+        prefix = taken[:i] + [taken[i] + 1]
